@@ -44,9 +44,17 @@ class DiscStorage:
         else:
             return set()
 
+    @staticmethod
+    def _pattern(name):
+        # a complete hash "<hash>.txt" has to match "<hash>-new.txt" too
+        if "*" in name:
+            return name
+        path = pathlib.PurePath(name)
+        return path.stem + "*" + path.suffix
+
     def persist(self, name):
         try:
-            file = self._lookup_path(name)
+            file = self._lookup_path(self._pattern(name))
         except HashError:
             return
         if file.stem.endswith("-new"):
@@ -65,7 +73,7 @@ class DiscStorage:
         return files[0]
 
     def lookup_all(self, name) -> Set[str]:
-        return {file.name for file in self.directory.glob(name)}
+        return {file.name for file in self.directory.glob(self._pattern(name))}
 
     def remove(self, name):
         self._lookup_path(name).unlink()
